@@ -13,7 +13,7 @@ ASSUMPTIONS = [
 STMTS = [
     "select 1", "select a from t", "select 'a;b' from t", 'select "x;y" from t', "select a /* ; */ from t",
     "select a -- ;\n from t", "insert into t values (1)", "delete from t where a = ';'", "select `a;b` from t",
-    "update t set a = 1", "select a # ; c\n from t", "select f(a, 'it''s;') from t",
+    "update t set a = 1", "select a # ; c\n from t", "select f(a, 'it''s;') from t", "select a /**/ from t", "/**/ select 1 /* last */",
     # one statement of every kind the grammar has (a routine, a block with inner semicolons, DDL, session statements):
     # each must keep its own place in the list whatever stands next to it
     "create procedure p() select 1", "create function f(a int) returns int return a + 1", "create table t (a int)",
@@ -22,7 +22,7 @@ STMTS = [
     "if a then select 1; end if", "use db", "commit", "alter table t add column b int",
     "create procedure q() begin select 1; select 2; end", "merge into t using s on t.a = s.a when matched then delete",
 ]
-SEPS = [";", ";;", "; \n", " ;\n", ";\n;\n"]
+SEPS = [";", ";;", "; \n", " ;\n", ";\n;\n", "; /**/ ", " /**/; ", "; /* c */ ", ";/**/\n/* d */", " -- c\n; # d\n"]
 DELIMS = ["$$", "//", "|", "@@", "GO", "$$$"]
 WORDS = ['delimiter', 'DELIMITER', 'Delimiter', ' delimiter ', '$$', '//', ';', 'select 1', 'select 2', '\n', '\n\n', ' ',
          '  ', "'a;b'", '$$\n', '$$ \n', '// \n\n', 'x', 'delimiterx', 'xdelimiter', ';;', '\t', '\r\n']
@@ -127,11 +127,17 @@ def run(ctx):
 
     # ---- oracle: parse(script) == list of the statements' own trees
     single = {}
+    usable = []
     for s in STMTS:
         r = R.parse_raw(s)
         if r[0] != "ok":
-            raise C.InfraError("pool statement rejected: %r" % s)
+            # every statement of the pool is valid SQL that the pinned tree accepts: a one-statement script that is no
+            # longer accepted is a script that does not parse to the list of its statements' trees
+            rep.finding("script-differs:single-statement-rejected", "parse(%r) is rejected (%s)" % (s, r[1]), {"script": s, "expected": "accepted"})
+            continue
         single[s] = r[1]
+        usable.append(s)
+    STMTS_ = usable
 
     def check(script, expected, shape, meta):
         r = R.parse_raw(script)
@@ -148,33 +154,33 @@ def run(ctx):
 
     max_n = 3 if ctx.quick else 4
     for n in range(0, max_n + 1):
-        combos = list(itertools.product(range(len(STMTS)), repeat=n))
+        combos = list(itertools.product(range(len(STMTS_)), repeat=n))
         rng.shuffle(combos)
         for combo in combos[: (400 if ctx.quick else 6000)]:
-            stmts = [STMTS[i] for i in combo]
+            stmts = [STMTS_[i] for i in combo]
             sep = rng.choice(SEPS)
             lead = rng.choice(["", "", ";", " ;\n", "\n"])
-            trail = rng.choice(["", ";", ";;", " ;\n", "\n", " -- end\n"])
+            trail = rng.choice(["", ";", ";;", " ;\n", "\n", " -- end\n", " /**/", "; /* last */", " /**/ ; /* end */"])
             script = lead + sep.join(stmts) + trail
             check(script, unwrap([single[s] for s in stmts]), "semicolons:%d" % n, n)
     # 5-6 statements, sampled
     for _ in range(100 if ctx.quick else 3000):
         n = rng.choice([5, 6])
-        stmts = [rng.choice(STMTS) for _ in range(n)]
+        stmts = [rng.choice(STMTS_) for _ in range(n)]
         script = rng.choice(SEPS).join(stmts) + rng.choice(["", ";"])
         check(script, unwrap([single[s] for s in stmts]), "semicolons:%d" % n, n)
     # DELIMITER blocks
     for _ in range(400 if ctx.quick else 8000):
         d = rng.choice(DELIMS)
-        before = [rng.choice(STMTS) for _ in range(rng.choice([0, 0, 1, 2]))]
-        inside = [rng.choice(STMTS) for _ in range(rng.choice([0, 1, 2, 3]))]
-        after = [rng.choice(STMTS) for _ in range(rng.choice([0, 1, 2]))]
+        before = [rng.choice(STMTS_) for _ in range(rng.choice([0, 0, 1, 2]))]
+        inside = [rng.choice(STMTS_) for _ in range(rng.choice([0, 1, 2, 3]))]
+        after = [rng.choice(STMTS_) for _ in range(rng.choice([0, 1, 2]))]
         script = "".join(s + ";\n" for s in before)
         script += rng.choice(["DELIMITER ", "delimiter ", "  Delimiter  "]) + d + "\n"
         expected = [single[s] for s in before] + [{"delimiter": d}]
         for s in inside:
             # a chunk under a custom delimiter may itself hold several ;-separated statements
-            group = [s] + [rng.choice(STMTS) for _ in range(rng.choice([0, 0, 1, 2]))]
+            group = [s] + [rng.choice(STMTS_) for _ in range(rng.choice([0, 0, 1, 2]))]
             script += rng.choice(["; ", ";\n"]).join(group) + d + rng.choice(["\n", " \n", "\n\n"])
             expected += [single[x] for x in group]
         if d == "GO" and rng.random() < 0.3:
@@ -185,7 +191,7 @@ def run(ctx):
         check(script, unwrap(expected), "delimiter-block:%s" % ("with-before" if before else "first"), len(expected))
     # a directive that (re)states the default delimiter, followed by ordinary ;-separated statements
     for _ in range(100 if ctx.quick else 2000):
-        stmts = [rng.choice(STMTS) for _ in range(rng.choice([1, 2, 3]))]
+        stmts = [rng.choice(STMTS_) for _ in range(rng.choice([1, 2, 3]))]
         script = "DELIMITER ;\n" + "; ".join(stmts) + rng.choice(["", ";"])
         check(script, unwrap([{"delimiter": ";"}] + [single[s] for s in stmts]), "delimiter-semicolon-first", len(stmts))
     # targeted: the delimiter inside a lexeme (documented weakness of the textual split)
@@ -213,4 +219,6 @@ def replay(ctx, p):
     print("script:", repr(p["script"]))
     print("observed:", C.cdump(got))
     print("expected:", C.cdump(p["expected"]))
+    if p["expected"] == "accepted":
+        return r[0] != "ok"
     return C.cdump(got) != C.cdump(p["expected"])
